@@ -67,6 +67,35 @@ Theorem C03_measure : forall stmt start th md ls l,
   internal l = true -> step s l <> s -> (mu (step s l) < mu s)%nat.
 Proof. exact measure_decreases. Qed.
 
+(** no deadlock: whenever a task is queued for the lifecycle lock or inside start/close
+    (a pc a close() can be at), some task step or the run task can move -- unless
+    everything waits for the child process alone, which is characterised exactly:
+    the run task waits for the child, one child is alive and has not exited, the lock
+    holder is a close() waiting for the run, every other call waits for the lock or
+    for the run; then the child's exit is enabled and unblocks the run task *)
+Theorem C03_no_deadlock : forall stmt start th md ls,
+  let s := run_labels (init_state stmt start th md) ls in
+  (exists t c p, find_task (tasks s) t = Some (c, p) /\ compat CClose p = true) ->
+  (exists t', (mu (step s (Step t')) < mu s)%nat) \/
+  (mu (step s StepRun) < mu s)%nat \/
+  (waits_only_child s /\
+   forall o, (mu (step s (ChildExit o)) < mu s)%nat /\ run_blocked (step s (ChildExit o)) = false).
+Proof. exact no_deadlock. Qed.
+
+(** close() completes: from every reachable state with a close in flight (at any of
+    its suspension points, issued by any task, whatever the other tasks are doing)
+    there is a finite continuation made only of task steps, run-task steps and the
+    exit of the child -- no new API call -- after which that close has returned ROk
+    and everything is shut down *)
+Theorem C03_close_completes : forall stmt start th md ls t p,
+  let s := run_labels (init_state stmt start th md) ls in
+  find_task (tasks s) t = Some (CClose, p) ->
+  exists ls', Forall (fun x => internal x = true) ls' /\
+    let s' := run_labels s ls' in
+    hd_error (trace s') = Some (EvRet t CClose ROk) /\ closed_down s' /\
+    exists new, trace s' = new ++ trace s /\ In (EvRet t CClose ROk) new.
+Proof. exact close_completes. Qed.
+
 (** the recorded finding "close() with an unanswered prompt never returns": a
     reachable state with a close in flight in which no task step and no step of the
     run task changes anything -- only the exit of the child does, and then the same
@@ -83,3 +112,50 @@ Theorem C03_needs_child_exit_witness :
    st_fsm s' = Closed /\ tasks s' = [] /\ alive s' = 0%nat /\
    hd_error (trace s') = Some (EvRet 1%nat CClose ROk)).
 Proof. exact stuck_witness. Qed.
+
+(** observation (mirrors `if self._closed: return` in Nextline.close): a SECOND close()
+    issued while the first one is still waiting for the run returns at once, without
+    error, while the state is still `running` -- "when close() returns the state is
+    closed" is a statement about the close that does the work (C03_returns_closed,
+    first disjunct); the later ones only promise "does nothing" *)
+Theorem C03_second_close_returns_early_witness :
+  let s := run_labels stuck_state [Call 2%nat CClose] in
+  nl_closed stuck_state = true /\ st_fsm s = Running /\ alive s = 1%nat /\
+  hd_error (trace s) = Some (EvRet 2%nat CClose ROk).
+Proof. vm_compute. repeat split; reflexivity. Qed.
+
+(** ---- non-vacuity: start, run, close() from another task while running, the child
+    exits, the run completes, the close completes; then a second close ---- *)
+Definition ex_before_return : list label :=
+  stuck_labels ++ [ChildExit OReturn; StepRun; StepRun; StepRun; StepRun; Step 1; Step 1]%nat.
+
+Example C03_example_nonvacuous :
+  let s := run_labels (init_state 0 1 false false) ex_before_return in
+  let s1 := step s (Step 1%nat) in
+  let s2 := step s1 (Call 2%nat CClose) in
+  find_task (tasks s) 1%nat = Some (CClose, C_G4) /\
+  appended s s1 = [EvPub PEndCont; EvRet 1%nat CClose ROk] /\
+  In (EvRet 1%nat CClose ROk) (appended s s1) /\
+  closed_down s1 /\
+  states_of (pubs_of (history s1)) = [Initialized; Running; Finished; Closed] /\
+  nl_closed s1 = true /\
+  appended s1 s2 = [EvCall 2%nat CClose; EvRet 2%nat CClose ROk] /\
+  st_fsm s2 = Closed /\ tasks s2 = [] /\ alive s2 = 0%nat.
+Proof.
+  vm_compute. repeat split; try reflexivity; repeat (first [left; reflexivity | right]).
+Qed.
+
+(** the measure along that history is strictly decreasing on the internal labels *)
+Example C03_example_measure :
+  map (fun n => mu (run_labels (init_state 0 1 false false) (firstn n ex_before_return)))
+      [11; 12; 13; 14; 15; 16; 17; 18]%nat = [40; 39; 37; 36; 35; 33; 31; 30]%nat.
+Proof. vm_compute. reflexivity. Qed.
+
+Print Assumptions C03_returns_closed.
+Print Assumptions C03_never_raises.
+Print Assumptions C03_idempotent.
+Print Assumptions C03_no_child_after_close.
+Print Assumptions C03_measure.
+Print Assumptions C03_no_deadlock.
+Print Assumptions C03_close_completes.
+Print Assumptions C03_needs_child_exit_witness.
